@@ -23,10 +23,7 @@ import (
 	"net/http"
 )
 
-var (
-	sseFlushPattern   = [2]byte{'\n', '\n'}
-	chunkFlushPattern = [2]byte{'\r', '\n'}
-)
+var chunkFlushPattern = [2]byte{'\r', '\n'}
 
 func shouldChunk(res *http.Response) bool {
 	if res.ProtoMajor != 1 || res.ProtoMinor != 1 {
@@ -53,6 +50,11 @@ func isHeaderOnlySpec(res *http.Response) bool {
 		res.StatusCode/100 == 1 ||
 		res.StatusCode == http.StatusNoContent ||
 		res.StatusCode == http.StatusNotModified
+}
+
+// isChunked reports whether the response is going to be written with the chunked transfer coding.
+func isChunked(res *http.Response) bool {
+	return len(res.TransferEncoding) > 0 && res.TransferEncoding[0] == "chunked"
 }
 
 func isTextEventStream(res *http.Response) bool {
@@ -98,6 +100,47 @@ func (w *patternFlushWriter) Write(p []byte) (n int, err error) {
 	} else {
 		w.last = 0
 	}
+
+	return
+}
+
+// eventFlushWriter is an io.Writer that flushes after every event of an event stream:
+// an event ends with a blank line, and lines end with LF, CR or CRLF.
+type eventFlushWriter struct {
+	w io.Writer
+	f flusher
+
+	// tail holds the last bytes written, a line ending may span two writes.
+	tail []byte
+}
+
+var eventEndings = [][]byte{[]byte("\n\n"), []byte("\r\r"), []byte("\r\n\r\n")}
+
+func newEventFlushWriter(w io.Writer, f flusher) *eventFlushWriter {
+	return &eventFlushWriter{w: w, f: f}
+}
+
+func (w *eventFlushWriter) Write(p []byte) (n int, err error) {
+	n, err = w.w.Write(p)
+	if err != nil {
+		return
+	}
+
+	seen := len(w.tail)
+	buf := append(w.tail, p[:n]...) //nolint:gocritic // appendAssign: the tail is rebuilt below
+	for _, end := range eventEndings {
+		// Only an ending completed by the bytes just written counts.
+		if i := bytes.LastIndex(buf, end); i != -1 && i+len(end) > seen {
+			err = w.f.Flush()
+			break
+		}
+	}
+
+	const keep = 3 // longest ending minus one
+	if len(buf) > keep {
+		buf = buf[len(buf)-keep:]
+	}
+	w.tail = append(w.tail[:0], buf...)
 
 	return
 }
